@@ -66,6 +66,14 @@ def check(run):
         C05.dfa(R)
         C05.loop(R)
         C05.track(R)
+    from . import C06, C15
+    R.rule('C18.inflate', 'compressed messages of a burst are delivered: every fragment inflated once, the trailer fed once after '
+                          'the last, the inflater configured from the negotiated server parameters', 10)
+    with R.as_rule('C18.inflate'):
+        C06.tail(R)
+        C06.wiring(R)
+    R.rule('C18.notcut', 'draining is not cut short by a timer that is not due: a disabled (None / 0) close timeout never fires', 3)
+    C15.close(R, RID='C18.notcut', rearm=False)
     R.rule('C18.replies', 'the automatic replies of a cycle cannot abort it: a Pong that write() refuses is swallowed; a '
                           'Close echo of any legal size is written in the cycle that read the Close', 3)
     C14.swallow(R, RID='C18.replies')
